@@ -2,6 +2,9 @@
   C12 — Red Hat notation round-trips and rejects mismatching scores.
 -/
 import Cvss.Model.Any
+import Cvss.Props.C07
+import Cvss.Lemmas.Construct
+import Cvss.Lemmas.Rh
 namespace Cvss.Props.C12
 open Cvss Cvss.Model
 
@@ -14,5 +17,188 @@ theorem show_parse_roundtrip :
 
 /-- `rh_vector()` is the printed base score, a '/', and the clean vector -/
 theorem rh_format (o : AnyObj) : o.rh = showScore o.base ++ '/' :: o.clean := rfl
+
+/-- "the part before the first '/'": `split("/", 1)` -/
+theorem splitFirst_iff (text a b : Str) :
+    splitFirst '/' text = some (a, b) ↔ text = a ++ '/' :: b ∧ '/' ∉ a :=
+  Lemmas.Rh.splitFirst_iff '/' text a b
+
+theorem splitFirst_none_iff (text : Str) : splitFirst '/' text = none ↔ '/' ∉ text :=
+  Lemmas.Rh.splitFirst_none_iff '/' text
+
+/-- ACCEPTANCE: `from_rh_vector` returns an object exactly when the part before the first '/' parses as a
+    number, the rest is accepted by the class, and the number equals the computed base score -/
+theorem fromRh_ok_iff (v : Ver) (text : Str) (o : AnyObj) :
+    fromRh v text = .ok o ↔
+      ∃ score vec fv, text = score ++ '/' :: vec ∧ '/' ∉ score ∧ Float.parseFloat score = some fv ∧
+        construct v vec = .ok o ∧ Float.eqScore o.base fv = true := by
+  unfold fromRh
+  cases hs : splitFirst '/' text with
+  | none =>
+    simp only [reduceCtorEq, false_iff]
+    rintro ⟨score, vec, fv, h1, h2, -⟩
+    rw [(splitFirst_iff text score vec).2 ⟨h1, h2⟩] at hs
+    cases hs
+  | some p =>
+    obtain ⟨score, vec⟩ := p
+    obtain ⟨e1, e2⟩ := (splitFirst_iff text score vec).1 hs
+    have huniq : ∀ score' vec', text = score' ++ '/' :: vec' → '/' ∉ score' → score' = score ∧ vec' = vec := by
+      intro score' vec' h1 h2
+      have := (splitFirst_iff text score' vec').2 ⟨h1, h2⟩
+      rw [hs] at this
+      simp only [Option.some.injEq, Prod.mk.injEq] at this
+      exact ⟨this.1.symm, this.2.symm⟩
+    simp only
+    constructor
+    · intro h
+      cases hf : Float.parseFloat score with
+      | none => rw [hf] at h; cases h
+      | some fv =>
+        rw [hf] at h
+        simp only at h
+        cases hc : construct v vec with
+        | error e => rw [hc] at h; cases h
+        | ok o' =>
+          rw [hc] at h
+          simp only at h
+          by_cases hq : Float.eqScore o'.base fv = true
+          · rw [if_pos hq] at h
+            cases h
+            exact ⟨score, vec, fv, e1, e2, hf, hc, hq⟩
+          · rw [if_neg hq] at h; cases h
+    · rintro ⟨score', vec', fv, h1, h2, h3, h4, h5⟩
+      obtain ⟨rfl, rfl⟩ := huniq score' vec' h1 h2
+      simp only [h3, h4, h5, if_true]
+
+/-- ERROR TAXONOMY: a missing or non-numeric score part gives the RH-malformed error, a differing score the
+    score-mismatch error, and an invalid vector part the ordinary vector error of the constructor -/
+theorem fromRh_error_iff (v : Ver) (text : Str) (e : Err) :
+    fromRh v text = .error e ↔
+      (e = .rhMalformed ∧ ('/' ∉ text ∨ ∃ score vec, text = score ++ '/' :: vec ∧ '/' ∉ score ∧ Float.parseFloat score = none)) ∨
+      (∃ score vec fv, text = score ++ '/' :: vec ∧ '/' ∉ score ∧ Float.parseFloat score = some fv ∧
+        ((construct v vec = .error e) ∨
+         (e = .rhMismatch ∧ ∃ o, construct v vec = .ok o ∧ Float.eqScore o.base fv = false))) := by
+  unfold fromRh
+  cases hs : splitFirst '/' text with
+  | none =>
+    have hno := (splitFirst_none_iff text).1 hs
+    have hnosplit : ∀ score vec, text = score ++ '/' :: vec → False := by
+      intro score vec h
+      apply hno
+      rw [h]
+      simp
+    simp only [Except.error.injEq]
+    constructor
+    · intro h; exact Or.inl ⟨h.symm, Or.inl hno⟩
+    · rintro (⟨h, -⟩ | ⟨score, vec, fv, h1, -⟩)
+      · exact h.symm
+      · exact (hnosplit score vec h1).elim
+  | some p =>
+    obtain ⟨score, vec⟩ := p
+    obtain ⟨e1, e2⟩ := (splitFirst_iff text score vec).1 hs
+    have hin : ¬ '/' ∉ text := by
+      rw [e1]; simp
+    have huniq : ∀ score' vec', text = score' ++ '/' :: vec' → '/' ∉ score' → score' = score ∧ vec' = vec := by
+      intro score' vec' h1 h2
+      have := (splitFirst_iff text score' vec').2 ⟨h1, h2⟩
+      rw [hs] at this
+      simp only [Option.some.injEq, Prod.mk.injEq] at this
+      exact ⟨this.1.symm, this.2.symm⟩
+    simp only
+    cases hf : Float.parseFloat score with
+    | none =>
+      simp only [Except.error.injEq]
+      constructor
+      · intro h; exact Or.inl ⟨h.symm, Or.inr ⟨score, vec, e1, e2, hf⟩⟩
+      · rintro (⟨h, -⟩ | ⟨score', vec', fv, h1, h2, h3, -⟩)
+        · exact h.symm
+        · obtain ⟨rfl, rfl⟩ := huniq score' vec' h1 h2
+          rw [hf] at h3; cases h3
+    | some fv =>
+      simp only
+      have hA : ¬ ('/' ∉ text ∨ ∃ score vec, text = score ++ '/' :: vec ∧ '/' ∉ score ∧ Float.parseFloat score = none) := by
+        rintro (h | ⟨score', vec', h1, h2, h3⟩)
+        · exact hin h
+        · obtain ⟨rfl, rfl⟩ := huniq score' vec' h1 h2
+          rw [hf] at h3; cases h3
+      cases hc : construct v vec with
+      | error e' =>
+        simp only [Except.error.injEq]
+        constructor
+        · rintro rfl
+          exact Or.inr ⟨score, vec, fv, e1, e2, hf, Or.inl hc⟩
+        · rintro (⟨-, h⟩ | ⟨score', vec', fv', h1, h2, h3, h4⟩)
+          · exact (hA h).elim
+          · obtain ⟨rfl, rfl⟩ := huniq score' vec' h1 h2
+            rcases h4 with h4 | ⟨-, o, h4, -⟩
+            · rw [hc] at h4; cases h4; rfl
+            · rw [hc] at h4; cases h4
+      | ok o =>
+        simp only
+        by_cases hq : Float.eqScore o.base fv = true
+        · rw [if_pos hq]
+          simp only [reduceCtorEq, false_iff]
+          rintro (⟨-, h⟩ | ⟨score', vec', fv', h1, h2, h3, h4⟩)
+          · exact hA h
+          · obtain ⟨rfl, rfl⟩ := huniq score' vec' h1 h2
+            rw [hf] at h3; cases h3
+            rcases h4 with h4 | ⟨-, o', h4, h5⟩
+            · rw [hc] at h4; cases h4
+            · rw [hc] at h4; cases h4
+              rw [hq] at h5; cases h5
+        · rw [if_neg hq]
+          simp only [Except.error.injEq]
+          constructor
+          · rintro rfl
+            exact Or.inr ⟨score, vec, fv, e1, e2, hf, Or.inr ⟨rfl, o, hc, by simpa using hq⟩⟩
+          · rintro (⟨-, h⟩ | ⟨score', vec', fv', h1, h2, h3, h4⟩)
+            · exact (hA h).elim
+            · obtain ⟨rfl, rfl⟩ := huniq score' vec' h1 h2
+              rcases h4 with h4 | ⟨h, -⟩
+              · rw [hc] at h4; cases h4
+              · exact h.symm
+
+/-- a printed score contains no '/', so the Red Hat text splits at the separator it was built with -/
+theorem showScore_no_slash (x : Rat) : '/' ∉ showScore x :=
+  Lemmas.Rh.showScore_no_slash x
+
+/-- the common part of the round trips: if the base score is a representable one-decimal score and the
+    clean vector re-constructs to an equal object with the same base score, `from_rh_vector` accepts the
+    Red Hat text and returns that object -/
+theorem rh_roundtrip_aux (v : Ver) (o o' : AnyObj) (k : Nat) (hk : k ≤ 100) (hb : o.base = (k : Rat) / 10)
+    (hc : construct v o.clean = .ok o') (hb' : o'.base = o.base) (heq : o'.eq o = true) :
+    ∃ o', fromRh v o.rh = .ok o' ∧ o'.eq o = true := by
+  have hmem : k ∈ List.range 101 := List.mem_range.2 (by omega)
+  have hrt := show_parse_roundtrip k hmem k hmem
+  cases hf : Float.parseFloat (showScore ((k : Rat) / 10)) with
+  | none => rw [hf] at hrt; cases hrt
+  | some fv =>
+    rw [hf] at hrt
+    simp only [Option.map_some, decide_true, Option.some.injEq] at hrt
+    refine ⟨o', (fromRh_ok_iff v o.rh o').2 ⟨showScore o.base, o.clean, fv, rfl, showScore_no_slash _, ?_, hc, ?_⟩, heq⟩
+    · rw [hb]; exact hf
+    · rw [hb', hb]; exact hrt
+
+/-- ROUND TRIP v2: `from_rh_vector(x.rh_vector())` succeeds and equals x -/
+theorem rh_roundtrip_v2 (s : Str) (o : V2.Obj) (h : V2.construct s = .ok o) :
+    ∃ o', fromRh .v2 (AnyObj.o2 o).rh = .ok o' ∧ o'.eq (AnyObj.o2 o) = true := by
+  obtain ⟨k, hk, hb⟩ := (Lemmas.Rh.v2_obj_range h).1
+  obtain ⟨o', hc, -, hsc, -, -, heq⟩ := C07.v2_clean_roundtrip s o h
+  refine rh_roundtrip_aux .v2 (AnyObj.o2 o) (AnyObj.o2 o') k hk hb ?_ ?_ heq
+  · show (V2.construct o.clean).map AnyObj.o2 = _
+    rw [hc]; rfl
+  · simp only [V2.Obj.scores, List.cons.injEq, Option.some.injEq] at hsc
+    exact hsc.1
+
+/-- ROUND TRIP v3 -/
+theorem rh_roundtrip_v3 (s : Str) (o : V3.Obj) (h : V3.construct s = .ok o) :
+    ∃ o', fromRh .v3 (AnyObj.o3 o).rh = .ok o' ∧ o'.eq (AnyObj.o3 o) = true := by
+  obtain ⟨k, hk, hb⟩ := (Lemmas.Rh.v3_obj_range h).1
+  obtain ⟨o', hc, -, -, hsc, -, -, heq⟩ := C07.v3_clean_roundtrip s o h
+  refine rh_roundtrip_aux .v3 (AnyObj.o3 o) (AnyObj.o3 o') k hk hb ?_ ?_ heq
+  · show (V3.construct (o.clean true)).map AnyObj.o3 = _
+    rw [hc]; rfl
+  · simp only [V3.Obj.scores, List.cons.injEq, Option.some.injEq] at hsc
+    exact hsc.1
 
 end Cvss.Props.C12
